@@ -30,15 +30,13 @@ I = "i"
 
 
 def _spox():
+    """What the realisers need: public constructors + the low-level Graph API (no Builder internals)."""
     import spox
     import spox.opset.ai.onnx.v17 as op
-    from spox import _graph, _internal_op
+    from spox import _graph
     from spox._attributes import AttrGraph
-    from spox._build import Builder
-    from spox._exceptions import BuildError
-    from spox._scope import ScopeError
 
-    return spox, op, _graph, _internal_op, AttrGraph, Builder, BuildError, ScopeError
+    return spox, op, _graph, AttrGraph
 
 
 def _types():
@@ -175,7 +173,7 @@ def _name_outputs(node, nid: int, is_arg: bool):
 
 
 def realise_lowlevel(ap: dict, name_vars: bool = True) -> Real:
-    spox, op, _graph, _internal_op, AttrGraph, *_ = _spox()
+    spox, op, _graph, AttrGraph = _spox()
     ty = _types()
     R = Real()
     R.ap = ap
@@ -200,6 +198,8 @@ def realise_lowlevel(ap: dict, name_vars: bool = True) -> Real:
                 vs = [spox.argument(ty[nd["ty"]])]
             elif k == "const":
                 vs = [op.const(np.float32(nid))]
+            elif k == "init":
+                vs = [_graph.initializer(np.array(nid, np.float32))]
             elif k == "neg":
                 vs = [op.neg(ins[0])]
             elif k == "add":
@@ -254,7 +254,7 @@ def realise_script(script: dict, name_vars: bool = True) -> Real:
     refs are creation-order ids (0 = main argument x: float, 1 = main argument c: bool); a value made
     in any callback can be referred to from anywhere later (closure / side-effect box).
     """
-    spox, op, _graph, _internal_op, AttrGraph, *_ = _spox()
+    spox, op, _graph, AttrGraph = _spox()
     ty = _types()
     R = Real()
     box: list = []  # id -> Var (first output)
@@ -285,6 +285,8 @@ def realise_script(script: dict, name_vars: bool = True) -> Real:
                 ins = [box[r] for r in refs]
                 if kind == "const":
                     v, t = op.const(np.float32(len(box))), F
+                elif kind == "init":
+                    v, t = _graph.initializer(np.array(len(box), np.float32)), F
                 elif kind == "neg":
                     v, t = op.neg(ins[0]), F
                 elif kind == "add":
@@ -355,108 +357,142 @@ def err_class(e: BaseException) -> str:
     return _ERR.get(type(e).__name__, type(e).__name__)
 
 
-def observe(R: Real) -> dict:
-    """Run the real `Builder(main).build_main()` and report its internals in abstract ids.
+def build_public(R: Real) -> dict:
+    """Build through the public surface only (`Graph.to_onnx_model`, final checker included).
 
-    Vertices: node n -> n, the source (`_Introduce`) of graph g -> -1-g.
-    Also builds the ModelProto (same build result, `to_onnx_model` with the final checker) and
-    returns it under "_model" / the exception class under "model_err".
-    """
-    spox, op, _graph, _internal_op, AttrGraph, Builder, BuildError, ScopeError = _spox()
-    out: dict[str, Any] = {}
-    b = Builder(R.main)
+    Nothing of `Builder`'s internals is touched: this is what the model-free oracle judges.
+    Returns {"ok", "err", "model_err", "_model"} (+ "_unchecked": the proto without the final
+    checker when only the checker objected, for the emission comparison)."""
+    out: dict[str, Any] = {"ok": False, "err": None, "model_err": None, "_model": None, "_unchecked": None}
     with warnings.catch_warnings():
         warnings.simplefilter("ignore")
         try:
-            res = b.build_main()
+            out["_model"] = R.main.to_onnx_model()
+            out["ok"] = True
+        except Exception as e:  # noqa: BLE001
+            out["err"] = err_class(e)
+            out["msg"] = str(e)[:120]
+            if out["err"] == "Validation":
+                try:
+                    out["_unchecked"] = R.main.to_onnx_model(check_model=0)
+                except Exception:  # noqa: BLE001
+                    pass
+    return out
+
+
+def trace_from_proto(ap: dict, model) -> list:
+    """The nested emission, flattened into the event trace of the compilation walk, read from the
+    ModelProto alone (value names `v<id>` / `a<id>`; NodeProtos without such an output are the
+    Identity nodes of a graph's `_Introduce` source, vertex -1-g)."""
+    import onnx
+
+    trace: list = []
+
+    def walk(gp, gid):
+        trace.append(["enter", gid])
+        ids = []
+        for vi in gp.input:
+            m = _ANAME.match(vi.name)
+            if not m:
+                raise ValueError(f"graph input {vi.name!r} is not an argument name")
+            ids.append(int(m.group(1)))
+        if ap["graphs"][gid]["args"] is None:
+            ids = sorted(ids)  # `list(all - claimed)`: set order
+        for a in ids:
+            trace.append(["arg", a])
+        last_src = False
+        for pn in gp.node:
+            nids = {int(m.group(1)) for m in (_VNAME.match(nm) for nm in pn.output if nm) if m}
+            if nids:
+                (nid,) = nids
+                trace.append(["emit", nid])
+                last_src = False
+                subs = [a.g for a in pn.attribute if a.type == onnx.AttributeProto.GRAPH]
+                want = ap["nodes"][nid]["s"]
+                if len(subs) != len(want):
+                    raise ValueError(f"node {nid}: {len(subs)} graph attributes, expected {len(want)}")
+                for sg, sub in zip(subs, want):
+                    walk(sg, sub)
+            else:
+                if not last_src:
+                    trace.append(["emit", -1 - gid])
+                last_src = True
+        trace.append(["leave", gid])
+
+    walk(model.graph, 0)
+    return trace
+
+
+def drop_initializers(ap: dict, trace: list) -> list:
+    """Initializers are emitted as `GraphProto.initializer` entries, not as NodeProtos: the trace read
+    from the proto cannot order them, so they are left out of the trace comparison (their position
+    is still compared through `scope_of` / `scope_own` and judged by the oracle)."""
+    inits = {n for n, nd in enumerate(ap["nodes"]) if nd["k"] == "init"}
+    if not inits:
+        return trace
+    return [e for e in trace if not (e[0] == "emit" and e[1] in inits)]
+
+
+INTERNAL_FACETS = ("graph_topo", "args_of", "scope_of", "scope_own")
+
+
+def observe_internals(R: Real) -> dict:
+    """Run `Builder(main).build_main()` and read its internals, in abstract ids, facet by facet.
+
+    Vertices: node n -> n, the source (`_Introduce`) of graph g -> -1-g. A facet that cannot be read
+    (missing / renamed attribute, changed type, exception while reading) is reported under
+    "unobservable" with the reason; it never raises."""
+    out: dict[str, Any] = {"facets": {}, "unobservable": {}, "ok": None, "err": None}
+    try:
+        from spox._build import Builder
+
+        b = Builder(R.main)
+    except Exception as e:  # noqa: BLE001
+        out["unobservable"] = {f: f"Builder not constructible: {type(e).__name__}: {e}"[:200] for f in INTERNAL_FACETS}
+        return out
+    with warnings.catch_warnings():
+        warnings.simplefilter("ignore")
+        try:
+            b.build_main()
+            out["ok"] = True
         except Exception as e:  # noqa: BLE001
             out["ok"] = False
             out["err"] = err_class(e)
-            out["msg"] = str(e)[:120]
             return out
-    out["ok"] = True
+
     gid = dict(R.graph_id)
-    src_of = {b.source_of[g]: -1 - gid[g] for g in b.source_of}
 
     def vid(node) -> int:
         if node in R.node_id:
             return R.node_id[node]
-        return src_of[node]
+        for g, src in b.source_of.items():
+            if src is node:
+                return -1 - gid[g]
+        raise KeyError(f"unknown node {type(node).__name__}")
 
-    out["graph_topo"] = [gid[g] for g in b.graph_topo]
-    args_of = []
-    for g in b.graph_topo:
-        ids = [R.node_id[v._op] for v in b.arguments_of[g]]
-        if g.requested_arguments is None:
-            ids = sorted(ids)
-        args_of.append([gid[g], ids])
-    out["args_of"] = args_of
-    out["scope_of"] = sorted([vid(n), gid[g]] for n, g in b.scope_tree.scope_of.items())
-    out["scope_own"] = [[gid[g], [vid(n) for n in b.scope_own[g]]] for g in b.graph_topo]
-    out["owner"] = sorted([gid[g], R.node_id[n]] for g, n in b.scope_tree.subgraph_owner.items())
+    def f_graph_topo():
+        return [gid[g] for g in b.graph_topo]
 
-    # nested emission, flattened into the event trace of the compilation walk, from the protos
-    of_name = res.scope.node.of_name
-    var_of_name = res.scope.var.of_name
-    trace: list = []
+    def f_args_of():
+        res = []
+        for g in sorted(b.arguments_of, key=lambda g: gid[g]):
+            ids = [R.node_id[v._op] for v in b.arguments_of[g]]
+            if g.requested_arguments is None:
+                ids = sorted(ids)
+            res.append([gid[g], ids])
+        return res
 
-    def node_of_proto(pn):
-        nm = pn.name
-        if nm in of_name:
-            return of_name[nm]
-        m = re.match(r"^(.*)_id\d+$", nm)
-        if m and m.group(1) in of_name:
-            return of_name[m.group(1)]
-        raise KeyError(f"proto node name {nm!r} is not in the build's scope")
+    def f_scope_of():
+        return sorted([vid(n), gid[g]] for n, g in b.scope_tree.scope_of.items())
 
-    def walk_protos(protos, g_id):
-        last = None
-        for pn in protos:
-            node = node_of_proto(pn)
-            if node is not last:
-                trace.append(["emit", vid(node)])
-                last = node
-                import onnx
+    def f_scope_own():
+        return sorted([gid[g], [vid(n) for n in lst]] for g, lst in b.scope_own.items())
 
-                subs = [a.g for a in pn.attribute if a.type == onnx.AttributeProto.GRAPH]
-                sub_graphs = list(node.subgraphs)
-                assert len(subs) == len(sub_graphs)
-                for gp, sg in zip(subs, sub_graphs):
-                    walk_graph(gp, gid[sg])
-
-    def walk_graph(gp, g_id):
-        trace.append(["enter", g_id])
-        ids = [R.node_id[var_of_name[vi.name]._op] for vi in gp.input]
-        if R.graphs[g_id].requested_arguments is None:
-            ids = sorted(ids)  # `list(all - claimed)`: set order
-        for a in ids:
-            trace.append(["arg", a])
-        walk_protos(gp.node, g_id)
-        trace.append(["leave", g_id])
-
-    trace.append(["enter", 0])
-    ids = [R.node_id[v._op] for v in res.arguments]
-    if R.main.requested_arguments is None:
-        ids = sorted(ids)  # `list(all - claimed)`: set order
-    for a in ids:
-        trace.append(["arg", a])
-    for node, protos in res.nodes.items():
-        if not protos:  # internal nodes without a NodeProto (initializers)
-            trace.append(["emit", vid(node)])
-            continue
-        walk_protos(protos, 0)
-    trace.append(["leave", 0])
-    out["trace"] = trace
-
-    with warnings.catch_warnings():
-        warnings.simplefilter("ignore")
+    for name, fn in (("graph_topo", f_graph_topo), ("args_of", f_args_of), ("scope_of", f_scope_of), ("scope_own", f_scope_own)):
         try:
-            model = R.main._inject_build_result(res).to_onnx_model()
-            out["model_err"] = None
-            out["_model"] = model
+            out["facets"][name] = fn()
         except Exception as e:  # noqa: BLE001
-            out["model_err"] = err_class(e)
-            out["_model"] = None
+            out["unobservable"][name] = f"{type(e).__name__}: {e}"[:200]
     return out
 
 
@@ -464,7 +500,7 @@ def observe_public(R: Real) -> dict:
     """The same program through the public `spox.build(inputs, outputs)` (fresh Builder inside)."""
     import spox
 
-    out: dict[str, Any] = {}
+    out: dict[str, Any] = {"model_err": None}
     args = list(R.main.requested_arguments or [])
     ins = {f"a{R.node_id[v._op]}": v for v in args}
     outs = dict(R.main.requested_results)
@@ -473,7 +509,6 @@ def observe_public(R: Real) -> dict:
         try:
             out["_model"] = spox.build(ins, outs)
             out["ok"] = True
-            out["model_err"] = None
         except Exception as e:  # noqa: BLE001
             out["ok"] = False
             out["err"] = err_class(e)
@@ -481,24 +516,22 @@ def observe_public(R: Real) -> dict:
     return out
 
 
-def model_view(m: dict) -> dict:
-    """Canonicalise the driver's answer the same way as `observe`."""
+def model_verdict(m: dict) -> str:
+    """The outcome class the model predicts for the whole public build."""
     if not m.get("ok"):
-        return {"ok": False, "err": m.get("err")}
+        return str(m.get("err"))
+    return "ok" if m.get("struct_ok") else "Validation"
+
+
+def model_facets(m: dict) -> dict:
+    """Canonicalise the driver's answer the same way as `observe_internals` / `trace_from_proto`."""
     return {
-        "ok": True,
         "graph_topo": m["graph_topo"],
-        "args_of": [[g, a] for g, a in m["args_of"]],
+        "args_of": sorted([g, a] for g, a in m["args_of"]),
         "scope_of": sorted([v, g] for v, g in m["scope_of"]),
-        "scope_own": [[g, l] for g, l in m["scope_own"]],
+        "scope_own": sorted([g, l] for g, l in m["scope_own"]),
         "trace": [[k, x] for k, x in m["trace"]],
     }
-
-
-def real_view(o: dict) -> dict:
-    if not o["ok"]:
-        return {"ok": False, "err": o["err"]}
-    return {k: o[k] for k in ("ok", "graph_topo", "args_of", "scope_of", "scope_own", "trace")}
 
 
 # --------------------------------------------------------------------------- model-free oracle on the ModelProto
@@ -526,6 +559,9 @@ def proto_facts(model) -> dict:
                 args.setdefault(int(m.group(1)), []).append(path)
         for init in gp.initializer:
             defined.setdefault(init.name, path)
+            m = _VNAME.match(init.name)
+            if m:
+                emitted.setdefault(int(m.group(1)), []).append(path)
         for k, pn in enumerate(gp.node):
             for nm in pn.input:
                 if nm:
